@@ -54,11 +54,17 @@ func NewCfg(r *run.Rng, domain string) Cfg {
 		c.Side = 2048
 		c.OffX, c.OffY = -1024, -1024
 	case DGP:
-		if r.Bool() {
+		switch r.Intn(5) {
+		case 0, 1:
 			c.Side = 12
-		} else {
+		case 2, 3:
 			c.Side = 1000
 			c.OffX, c.OffY = -500, -500
+		default: // a small extent far from the origin (projected-coordinate magnitudes)
+			c.Side = 12
+			c.Scale = []int{1, 10, 100}[r.Intn(3)]
+			off := []int{100000, 1350000}[r.Intn(2)]
+			c.OffX, c.OffY = off+r.Range(-500, 500), -off/3+r.Range(-500, 500)
 		}
 		c.GP = true
 		c.GPSalt = r.Uint64()
